@@ -407,7 +407,7 @@ def rule_unpack(run):
 
     prep = run.idx.mod(PREP)
     f = prep.func("PrepareAst._split_target")
-    prims = {"isinstance": lambda v, t: isinstance(v, t) if isinstance(t, type) else False, "ast": _AstTok(), "len": len, "enumerate": enumerate}
+    prims = {"isinstance": lambda v, t: isinstance(v, t) if isinstance(t, type) else False, "ast": _AstTok(), "len": len, "enumerate": enumerate, "list": list, "tuple": tuple}
     for before in range(0, run.bound(4, 6)):
         for after in range(0, run.bound(4, 6)):
             for mid in range(0, run.bound(3, 5)):
@@ -417,6 +417,12 @@ def rule_unpack(run):
                 exp = source[:before] + [source[before:n - after]] + source[n - after:]
                 try:
                     got = Interp(prep, dict(prims)).call_function("PrepareAst._split_target", None, targets, list(source))
+                    # unpacking a tuple binds the starred name to a LIST as well
+                    got_t = Interp(prep, dict(prims)).call_function("PrepareAst._split_target", None, targets, tuple(source))
+                    if got == exp and list(got_t) != exp:
+                        got = f"tuple source: {got_t}"
+                    elif got == exp and not isinstance(got_t[before], list):
+                        got = f"tuple source: starred name bound to {type(got_t[before]).__name__} {got_t[before]!r}"
                 except Reject as e:
                     got = f"rejected: {e}"
                 run.ob(got == exp, "PrepareAst._split_target", file=prep.rel, line=f.node.lineno, detail=f"before={before},after={after},starred={mid}",
